@@ -66,9 +66,17 @@ def run(ctx):
     runs.append(("views", "PropsViews.cfg", None))
     runs.append(("sites", "PropsSites_%s.cfg" % tier, None))
     outs = {}
-    for label, cfg, sim in runs:
-        r = ctx.tlc("MCProps", cfg, workers=4 if sim else workers, timeout=3000, xmx="8g",
-                    simulate=sim, depth=9 if sim else None, coverage=not sim)
+
+    def one(run):
+        label, cfg, sim = run
+        return label, cfg, sim, ctx.tlc("MCProps", cfg, workers=4, timeout=3000, xmx="6g",
+                                        simulate=sim, depth=9 if sim else None, coverage=not sim)
+
+    # the runs are independent: side by side (4 workers each)
+    from concurrent.futures import ThreadPoolExecutor
+    with ThreadPoolExecutor(max_workers=len(runs)) as ex:
+        results = list(ex.map(one, runs))
+    for label, cfg, sim, r in results:
         if r.violated:
             ctx.spec_violation(r, "Props.tla (%s): %s violated by the transcription of the code"
                                % (cfg, r.violated))
